@@ -399,13 +399,26 @@ func IDCard(errBuf *strings.Builder, validName, objName, fieldName string, tv re
 	errBuf.WriteString(GetJoinValidErrStr(objName, fieldName, tv.String(), ExplainEn, "it is not idcard"))
 }
 
+// parseTimeStrict 按 layout 严格解析时间
+// 说明: time.Parse 会接受秒后面的小数部分(如: 00:00:00.5)和连续的多个空格, 这里通过重新格式化来保证输入和 layout 完全一致
+func parseTimeStrict(layout, value string) error {
+	t, err := time.Parse(layout, value)
+	if err != nil {
+		return err
+	}
+	if t.Format(layout) != value {
+		return fmt.Errorf("parsing time %q as %q: cannot parse", value, layout)
+	}
+	return nil
+}
+
 // Year 验证年
 func Year(errBuf *strings.Builder, validName, objName, fieldName string, tv reflect.Value) {
 	if err := CheckFieldIsStr(objName, fieldName, tv); err != nil {
 		errBuf.WriteString(err.Error())
 		return
 	}
-	_, err := time.Parse(GetTimeFmt(YearFmt), tv.String())
+	err := parseTimeStrict(GetTimeFmt(YearFmt), tv.String())
 	if err == nil {
 		return
 	}
@@ -430,7 +443,7 @@ func Year2Month(errBuf *strings.Builder, validName, objName, fieldName string, t
 	if val != "" {
 		defaultDateSplit = strings.Trim(val, "'")
 	}
-	_, err := time.Parse(GetTimeFmt(YearFmt|MonthFmt, defaultDateSplit), tv.String())
+	err := parseTimeStrict(GetTimeFmt(YearFmt|MonthFmt, defaultDateSplit), tv.String())
 	if err == nil {
 		return
 	}
@@ -454,7 +467,7 @@ func Date(errBuf *strings.Builder, validName, objName, fieldName string, tv refl
 	if val != "" {
 		defaultDateSplit = strings.Trim(val, "'")
 	}
-	_, err := time.Parse(GetTimeFmt(DateFmt, defaultDateSplit), tv.String())
+	err := parseTimeStrict(GetTimeFmt(DateFmt, defaultDateSplit), tv.String())
 	if err == nil {
 		return
 	}
@@ -480,7 +493,7 @@ func Datetime(errBuf *strings.Builder, validName, objName, fieldName string, tv 
 			defaultSplit[i] = split
 		}
 	}
-	_, err := time.Parse(GetTimeFmt(DateTimeFmt, defaultSplit...), tv.String())
+	err := parseTimeStrict(GetTimeFmt(DateTimeFmt, defaultSplit...), tv.String())
 	if err == nil {
 		return
 	}
